@@ -304,6 +304,81 @@ theorem header_keeps_reassembly_state (s : Stream) (d d' : Dir) (hs : List Heade
     cases hsc : scanEncoding (s.get d).enc hs with
     | mk e ok => cases ok <;> cases d <;> cases d' <;> simp [Stream.set, Stream.get]
 
+/-! ## several header blocks of one direction (1xx interim responses, the final block, trailers) -/
+
+/-- `adapter.Header` called for each block of a direction in turn (`es` = the block's END_STREAM) -/
+def headerBlocks (s : Stream) (d : Dir) : List (List Header × Bool) → Stream
+  | [] => s
+  | (hs, es) :: bs => headerBlocks (s.header d hs es).1 d bs
+
+private theorem headerBlocks_append (s : Stream) (d : Dir) (xs ys : List (List Header × Bool)) :
+    headerBlocks s d (xs ++ ys) = headerBlocks (headerBlocks s d xs) d ys := by
+  induction xs generalizing s with
+  | nil => rfl
+  | cons x xs ih => obtain ⟨hs, es⟩ := x; simp [headerBlocks, ih]
+
+/-- a block without a `grpc-encoding` field leaves the encoding of its direction as it was —
+whether or not the stream is (or becomes) gRPC -/
+theorem block_without_encoding_keeps_it (s : Stream) (d : Dir) (hs : List Header) (es : Bool)
+    (h : ∀ x ∈ hs, x.1 ≠ geName) : ((s.header d hs es).1.get d).enc = (s.get d).enc := by
+  unfold Stream.header
+  rw [scan_skips_other_fields _ hs h]
+  cases hen : (s.enabled || isGrpcHeaders hs) with
+  | false => simp
+  | true => cases d <;> simp [Stream.set, Stream.get]
+
+theorem blocks_without_encoding_keep_it (s : Stream) (d : Dir) (bs : List (List Header × Bool))
+    (h : ∀ b ∈ bs, ∀ x ∈ b.1, x.1 ≠ geName) : ((headerBlocks s d bs).get d).enc = (s.get d).enc := by
+  induction bs generalizing s with
+  | nil => rfl
+  | cons b bs ih =>
+    obtain ⟨hs, es⟩ := b
+    simp only [headerBlocks]
+    rw [ih _ (fun b hb => h b (by simp [hb])), block_without_encoding_keeps_it s d hs es (h (hs, es) (by simp))]
+
+/-- **`encoding_is_last_grpc_encoding_field` lifted from fields to blocks**: after any number of
+header blocks of a direction, the encoding is the one named by the last `grpc-encoding` field of
+the LAST block that names one (provided the stream is gRPC by then: announced before, by the other
+direction, or in that very block) — whatever the earlier blocks (1xx interim responses included)
+said, and whatever follows without naming one (the final block, trailers). The seeded defect C11-L
+scans the first block only. -/
+theorem encoding_is_last_block_naming_one (s : Stream) (d : Dir) (pre post : List (List Header × Bool))
+    (hs preF postF : List Header) (v : Bytes) (e' : Enc) (es : Bool)
+    (hen : (headerBlocks s d pre).enabled = true ∨ ∃ ct, (ctName, ct) ∈ hs ∧ SpecGrpcContentType ct)
+    (hsplit : hs = preF ++ (geName, v) :: postF)
+    (hpreF : ∀ x ∈ preF, x.1 = geName → (encOfName x.2).isSome = true)
+    (hpostF : ∀ x ∈ postF, x.1 ≠ geName) (hv : encOfName v = some e')
+    (hpost : ∀ b ∈ post, ∀ x ∈ b.1, x.1 ≠ geName) :
+    ((headerBlocks s d (pre ++ (hs, es) :: post)).get d).enc = e' := by
+  rw [headerBlocks_append]
+  simp only [headerBlocks]
+  rw [blocks_without_encoding_keep_it _ d post hpost,
+    (header_selects_last_encoding (headerBlocks s d pre) d hs preF postF v e' es hen hsplit hpreF hpostF hv).2.1]
+
+/-- DATA never changes an encoding: the encoding in force for a DATA frame is the one the header
+blocks before it left. -/
+theorem data_keeps_encodings (cd : Codec) (s s' : Stream) (d d' : Dir) (b : Bytes) (es : Bool) (evs : List Ev)
+    (h : Stream.data cd s d b es = (some s', evs)) : (s'.get d').enc = (s.get d').enc := by
+  unfold Stream.data at h
+  by_cases hen : s.enabled = false
+  · simp [hen] at h; rw [← h.1]
+  · simp only [hen] at h
+    cases hn : (Grpc.data cd (s.get d) b es).next with
+    | none => simp [hn] at h
+    | some a' =>
+      simp [hn] at h
+      rw [← h.1]
+      have he : a'.enc = (s.get d).enc := by
+        have := loop_keeps_enc cd es ((s.get d).app b) a' hn
+        simpa [Adapter.app] using this
+      cases d <;> cases d' <;> simp [Stream.set, Stream.get, he] <;> simpa [Stream.get] using he
+
+/-- test: 103 Early Hints, then 200 with `grpc-encoding: gzip`, on a stream the request announced -/
+example : ((headerBlocks { enabled := true } .s2c
+    [([(strBytes ":status", strBytes "103")], false),
+     ([(strBytes ":status", strBytes "200"), grpcCT, (geName, strBytes "gzip")], false),
+     ([(strBytes "grpc-status", strBytes "0")], true)]).get .s2c).enc = .gzip := by decide
+
 /-! ## non-vacuity / tests on concrete blocks -/
 
 /-- `grpc-encoding: gzip` first, pseudo-headers and `grpc-accept-encoding` around, content-type last -/
